@@ -64,6 +64,9 @@ type FuncContract struct {
 	File     string
 	Line     int
 	Atomic   bool
+	Impl     string // key of the interface-method contract this function implements
+	ImplType string // interface type text for asIface
+	ImplProps []string
 }
 
 func (fc *FuncContract) props() []string {
@@ -293,7 +296,7 @@ func (db *DB) parseClause(text, file string, line int, pkg string, cur **FuncCon
 			return fmt.Errorf("missing target")
 		}
 		// the target may contain spaces only inside [...] of generics; we forbid that
-		fc := &FuncContract{Kind: kw, Target: fs[0], Pkg: pkg, Loops: map[int]*LoopContract{}, Defines: map[string]*Macro{}, Specs: map[string]*SpecFun{}, File: file, Line: line}
+		fc := &FuncContract{Kind: kw, Target: fs[0], Pkg: pkg, Loops: map[int]*LoopContract{}, Defines: map[string]*Macro{}, Specs: map[string]*SpecFun{}, File: file, Line: line, ImplProps: props}
 		fc.Key = resolveTarget(kw, fs[0], pkg)
 		i := 1
 		for ; i < len(fs); i++ {
@@ -309,6 +312,12 @@ func (db *DB) parseClause(text, file string, line int, pkg string, cur **FuncCon
 			case "atomic":
 				fc.Atomic = true
 			default:
+				if strings.HasPrefix(fs[i], "impl:") {
+					t := strings.TrimPrefix(fs[i], "impl:")
+					fc.Impl = resolveTarget("iface", t, pkg)
+					fc.ImplType = t[:strings.LastIndex(t, ".")]
+					continue
+				}
 				goto done
 			}
 		}
@@ -611,6 +620,16 @@ func (db *DB) lint() []string {
 		if e == nil {
 			return
 		}
+		// "g == old(g)" (unchanged) is harmless for a ghost that is not modified
+		if e.Kind == "binop" && e.Name == "==" {
+			a, b := e.X, e.Y
+			if a.Kind == "old" {
+				a, b = b, a
+			}
+			if a.Kind == "ident" && b.Kind == "old" && b.X.Kind == "ident" && a.Name == b.X.Name {
+				return
+			}
+		}
 		if e.Kind == "ident" {
 			if _, ok := db.ghosts[e.Name]; ok {
 				if inOld {
@@ -670,8 +689,64 @@ func loadContracts(repo, verif string) (*DB, error) {
 			}
 		}
 	}
+	if err := db.expandImpl(); err != nil {
+		return nil, err
+	}
 	if l := db.lint(); len(l) > 0 {
 		return nil, fmt.Errorf("contract lint:\n  %s", strings.Join(l, "\n  "))
 	}
 	return db, nil
 }
+
+// expandImpl copies the clauses of an interface-method contract into the contracts of the functions
+// declared to implement it ("impl:<iface method>"), with self := asIface(<receiver>, <iface type>).
+// The receiver name is resolved later (the placeholder $recv is substituted in verifyFunction).
+func (db *DB) expandImpl() error {
+	for _, fc := range db.order {
+		if fc.Impl == "" {
+			continue
+		}
+		ic, ok := db.funcs[fc.Impl]
+		if !ok {
+			return fmt.Errorf("%s:%d: impl target %s has no contract", fc.File, fc.Line, fc.Impl)
+		}
+		self, err := parseCExpr("asIface($recv, " + fc.ImplType + ")")
+		if err != nil {
+			return err
+		}
+		m := map[string]*CExpr{"self": self}
+		cp := func(cs []*Clause, kind string) []*Clause {
+			var out []*Clause
+			for _, c := range cs {
+				cc := *c
+				cc.Expr = c.Expr.subst(m)
+				if cc.Label == "" {
+					cc.Label = fmt.Sprintf("impl-L%d", c.Line)
+				}
+				cc.Label = "impl." + cc.Label
+				if len(cc.Props) == 0 {
+					cc.Props = fc.implProps()
+				}
+				out = append(out, &cc)
+			}
+			return out
+		}
+		fc.Requires = append(cp(ic.Requires, "requires"), fc.Requires...)
+		fc.Ensures = append(cp(ic.Ensures, "ensures"), fc.Ensures...)
+		fc.Defines_ = append(cp(ic.Defines_, "defines"), fc.Defines_...)
+		for _, l := range ic.Lets {
+			fc.Lets = append(fc.Lets, &Macro{Name: l.Name, Body: l.Body.subst(m)})
+		}
+		for k, d := range ic.Defines {
+			if _, dup := fc.Defines[k]; !dup {
+				fc.Defines[k] = &Macro{Name: d.Name, Params: d.Params, Body: d.Body.subst(m)}
+			}
+		}
+		// the implementation may additionally declare its own (object-internal) footprint
+		fc.HasMod = fc.HasMod || ic.HasMod
+		fc.Modifies = append(fc.Modifies, ic.Modifies...)
+	}
+	return nil
+}
+
+func (fc *FuncContract) implProps() []string { return fc.ImplProps }
